@@ -153,6 +153,14 @@ def run(tier):
         if r.get("changed") == "tree-of-an-earlier-parse-changed" and r.get("part") in ("tokens", "positions"):
             check.violation({"class": "objects-of-an-earlier-parse-changed", "kind": r.get("part"), "size_class": "parse"}, {"task": {"src": t["src"], "ver": t["ver"], "others": len(t["others"])}, "observed": r})
 
+    # ... and while the parser object that produced the tree is run again (its pools are the same objects: "for the lifetime of the pool")
+    rp = [p for p in inputs.programs(check, tier) if 20 < len(p["src"]) < 4000][:: (6 if tier == "quick" else 1)]
+    for p, r in zip(rp, wp.run([{"op": "reparse_check", "src": p["src"], "ver": p["ver"]} for p in rp])):
+        check.count()
+        if r.get("changed"):
+            check.violation({"class": "objects-of-an-earlier-parse-changed", "kind": r.get("part"), "size_class": "same-parser-again"}, {"src": p["src"], "ver": p["ver"], "observed": r})
+    check.cov["reparse_checks"] = len(rp)
+
     # ---- who may share a pool (PoolShared.tla): Get is three unsynchronised steps; with one pool per parser Fresh is an invariant of
     # any interleaving, with one pool for all it is not (negative check: TLC must find the double hand-out).  The real parsers are
     # then run at the same time on many goroutines and the objects reachable from their trees compared by identity and content.
